@@ -67,7 +67,10 @@ EXP_LO, EXP_HI = 0.3, 3.0
 LMAX = 4
 
 RULE = ("bases of 1-3 shells, l in 0..4 (every l and both coordinate types occur in every tier; all-Cartesian, "
-        "all-spherical and mixed bases), K 1-3 primitives, M 1-2 segments (generalized), exponents log-uniform "
+        "all-spherical and mixed bases), K 1-3 primitives, M 1-2 segments (generalized; about 60% of the K>=2, M>=2 "
+        "shells - at least two shells per run - carry the zero-padded layout of published general contractions: exact "
+        "zeros in some but not all columns of a primitive's row, every column and every row keeping a non-zero entry; "
+        "evidence counter 'zero-padded generalized shells'), exponents log-uniform "
         "0.3..3 with 8-bit mantissas, centres k/16 with |centre| <= 1, coefficients k/8; moment origin on a centre / "
         "off centre / at the coordinate origin (k/16, norm <= 1), moment orders: all 10 triples of total order <= 2 "
         "plus 3 of the remaining triples with every order <= 2 (thorough: all 27); density matrices P = C C^T "
@@ -585,6 +588,10 @@ def run(rep, tier, seed, model, replay):
             for b in _basis(case):
                 key = "shell l=%d %s K=%d M=%d" % (b.l, "sph" if b.sph else "cart", len(b.exps), len(b.coeffs[0]))
                 rep.dist[key] = rep.dist.get(key, 0) + 1
+                if len(b.exps) >= 2 and len(b.coeffs[0]) >= 2:
+                    zp = any(0 in row and any(x != 0 for x in row) for row in b.coeffs)
+                    key = "stat:%s generalized shells (K>=2, M>=2)" % ("zero-padded" if zp else "dense")
+                    rep.dist[key] = rep.dist.get(key, 0) + 1
             for k, v in out["errs"].items():
                 worst[k] = max(worst.get(k, 0.0), v)
             detail = out["detail"]
